@@ -37,6 +37,67 @@ def r5_bounds_trigger_refit(ctx):
         "bounds)")
 
 
+def r7_expressions_survive(ctx):
+    """lmfit's `Parameter.set(value=...)` (and assigning `.value`) turns an
+    expression-constrained parameter into a plain one.  Between the stored
+    initial parameters and the optimiser the fitter may therefore write the
+    value of `contact_point` only (its unit conversion; a contact point
+    defined by an expression is the user's documented risk); writing the
+    value of an arbitrary parameter (a loop over names, a computed key)
+    freezes dependent parameters at a stale number and the reported
+    parameters no longer satisfy their expression.  The fitter also
+    installs initial parameters only through FitProperties.__setitem__
+    or its own working copy - never behind the hash with restore()."""
+    import ast
+    from ..astutil import call_name, const_str, norm, walk_no_nested
+    from ..guards import conditions_at
+    fitm = ctx.repo.mod("fit")
+    n = 0
+    for q, fn in fitm.funcs.items():
+        if not q.startswith("IndentationFitter."):
+            continue
+        for node in walk_no_nested(fn, False):
+            tgt = None
+            if isinstance(node, ast.Call) and isinstance(
+                    node.func, ast.Attribute) and node.func.attr == "set" \
+                    and isinstance(node.func.value, ast.Subscript):
+                sets_value = bool(node.args) or any(
+                    k.arg == "value" for k in node.keywords)
+                if sets_value:
+                    tgt = node.func.value
+            elif isinstance(node, ast.Assign) and isinstance(
+                    node.targets[0], ast.Attribute) and \
+                    node.targets[0].attr == "value" and isinstance(
+                        node.targets[0].value, ast.Subscript):
+                tgt = node.targets[0].value
+            if tgt is None:
+                continue
+            n += 1
+            key = const_str(tgt.slice)
+            guarded = any("expr" in a.text for a in conditions_at(node))
+            ctx.check(key == "contact_point" or guarded, node,
+                      f"{q.split('.')[-1]}: value written for "
+                      f"{norm(tgt.slice)[:30]}",
+                      f"fit.py:{q} writes the value of parameter "
+                      f"`{norm(tgt.slice)[:40]}` of `{norm(tgt.value)[:40]}`"
+                      ": lmfit clears the expression of a constrained "
+                      "parameter when its value is set, the optimiser then "
+                      "treats it as a plain number and the reported "
+                      "parameters violate their expression")
+        for c in walk_no_nested(fn, False):
+            if isinstance(c, ast.Call) and (call_name(c) or "").endswith(
+                    ".restore") and c.args and isinstance(
+                        c.args[0], ast.Dict):
+                keys = [const_str(k) for k in c.args[0].keys]
+                ctx.check("params_initial" not in keys, c,
+                          f"{q.split('.')[-1]}: restore({keys})",
+                          f"fit.py:{q} swaps the initial parameters behind "
+                          "the settings (restore bypasses invalidation and "
+                          "the copy on store): the optimiser starts from "
+                          "parameters that are not the stored ones")
+    ctx.floor("parameter value writes in the fitter", n, 2)
+
+
 RULES = [
     ("C04-R1", "NaN unless written; success flag matches the branch",
      fitclauses.clause_nan_unless_written),
@@ -53,4 +114,7 @@ RULES = [
     ("C04-R6", "the reported contact point is the fitted one converted "
      "back once, value only (bounds and other attributes untouched)",
      fitclauses.clause_gcf_pairing),
+    ("C04-R7", "expression constraints survive the way to the optimiser: "
+     "the fitter writes the value of contact_point only",
+     r7_expressions_survive),
 ]
